@@ -729,7 +729,11 @@ fn chain_cases() -> Vec<A> {
                     let l2 = mk(n2, own & 2 != 0).child(l3.clone()).child(mk(n3, own & 4 != 0));
                     let l1 = mk(n1, own & 1 != 0).child(l2);
                     let root = A::el("", "body").decl("h", XHTML).decl("m", MATHML).decl("s", SVG).decl("f", FOREIGN).child(l1);
-                    out.push(root);
+                    out.push(root.clone());
+                    // the same with attributes of the root in the MathML and SVG namespaces: the HTML5 serialiser
+                    // writes a prefix declaration for those namespaces only where an attribute needs it, so only
+                    // now are m and s really in scope for the elements below
+                    out.push(root.attr(MATHML, "k", "v").attr(SVG, "k", "v"));
                 }
             }
         }
@@ -839,7 +843,7 @@ pub fn run(tier: Tier) -> i32 {
         return 2;
     }
     let cov = json!({
-        "rule": format!("(1) single elements: 11 names (br/BR/Br/p/P/span/div/pre/script/style/foo) x 5 namespaces (none, the real XHTML URI, MathML, SVG, foreign) x default / prefixed declaration, bare, with ordinary / boolean attributes, with children, with every text / attribute value of length <= {} over {{<,&,\",',>,U+00A0,x}}; (2) 4 parents x all ordered pairs of 24 children (SVG / MathML siblings with and without own declarations, void elements in every letter case, script / style / p with markup characters, foreign elements, comments, PIs with and without '>', text); (2b) every chain of three nested elements over the 5 namespaces, each level using a prefix declared on the root or declaring its namespace as default on itself, with a text child and a following sibling at the innermost level; (2c) every inner element of the nested trees of (2) / (2b) and every text node of every tree serialised in place (the declarations of its ancestors in scope; the parent - script and style included - not part of the output); (3) detached nodes of every kind and text directly under a document; x CDATA-section elements {{none, p, script}} x indentation {{off, on, on with p suppressed}}; distinct = distinct (tree, parameters)", tier.pick(2, 3)),
+        "rule": format!("(1) single elements: 11 names (br/BR/Br/p/P/span/div/pre/script/style/foo) x 5 namespaces (none, the real XHTML URI, MathML, SVG, foreign) x default / prefixed declaration, bare, with ordinary / boolean attributes, with children, with every text / attribute value of length <= {} over {{<,&,\",',>,U+00A0,x}}; (2) 4 parents x all ordered pairs of 24 children (SVG / MathML siblings with and without own declarations, void elements in every letter case, script / style / p with markup characters, foreign elements, comments, PIs with and without '>', text); (2b) every chain of three nested elements over the 5 namespaces, each level using a prefix declared on the root or declaring its namespace as default on itself, with a text child and a following sibling at the innermost level, each chain under a plain root and under a root with attributes in the MathML and SVG namespaces (which puts the prefixes m and s in scope of the output); (2c) every inner element of the nested trees of (2) / (2b) and every text node of every tree serialised in place (the declarations of its ancestors in scope; the parent - script and style included - not part of the output); (3) detached nodes of every kind and text directly under a document; x CDATA-section elements {{none, p, script}} x indentation {{off, on, on with p suppressed}}; distinct = distinct (tree, parameters)", tier.pick(2, 3)),
     });
     ctx.finish(stats, cov, vec!["HtmlScan (120 lines) is trusted; it knows script / style as raw-text elements".into()])
 }
